@@ -246,6 +246,21 @@ def judgeProc (prop : String) (s : SpecSt) (p buf : Bytes) (o : ProcObs) (outsid
     match o with
     | .ok _ => chk (pecOk p) "accepted-with-bad-pec"
     | _ => if pecOk p then .na else chk (buf' == buf && eidsAfter == s.eids) "bad-pec-had-effect"
+  | "C03" =>
+    -- a response written by the processor is an encoded packet too
+    match o with
+    | .ok (_, some n) => chk (pecOk (buf'.take n) && crc (buf'.take n) == 0x00#8) "pec"
+    | _ => .na
+  | "C04" =>
+    match o with
+    | .ok (_, some n) => chk (frameOk s.addr (byteAt p 6) (buf'.take n) n) "frame"
+    | _ => .na
+  | "C05" =>
+    match o with
+    | .ok (_, some n) =>
+      chk (decide (9 ≤ n) && byteAt buf' 4 == 0x01#8 && byteAt buf' 5 == byteAt p 6 && byteAt buf' 6 == s.addr &&
+           (byteAt buf' 7 &&& 0xF0#8) == 0xC0#8 && byteAt buf' 8 == 0x00#8) "transport"
+    | _ => .na
   | "C10" =>
     if pre then
       match o with
